@@ -385,6 +385,10 @@ Qed.
 (* ======================================================================================== *)
 (* T1: one common order *)
 
+(* closing a conjunction of concrete computations (left to right: the first conjunct determines
+   the state) without ever asking the unifier to evaluate [run] *)
+Ltac ex_conj := repeat (split; [vm_compute; reflexivity|]); vm_compute; reflexivity.
+
 Definition ex_sched : list ev :=
   [SubCall 0 true; SubLocked 0; BcCall 1%Z; BcLock 0; BcSend; BcEnd; FwdTake 0; FwdDeliver 0;
    BcCall 2%Z; BcLock 0; BcSend; BcEnd; BcCall 3%Z; BcLock 0].
@@ -404,7 +408,7 @@ Qed.
 Example main_total_order_nonvacuous : forall vr, exists s b,
   run vr init ex_sched = Some s /\ nth_error (subs s) 0 = Some b /\
   fanout s = [1; 2; 3]%Z /\ received b = [1]%Z /\ in_flight s 0 b = [2; 3]%Z.
-Proof. intros []; eexists; eexists; repeat split; vm_compute; reflexivity. Qed.
+Proof. intros []; eexists; eexists; ex_conj. Qed.
 
 (* ======================================================================================== *)
 (* T2: exactly once while staying and open *)
@@ -420,7 +424,7 @@ Qed.
 Example main_exactly_once_nonvacuous : forall vr, exists s b,
   run vr init ex_sched = Some s /\ nth_error (subs s) 0 = Some b /\
   ctx_done b = false /\ closed s = false /\ skipn (start b) (fanout s) = [1; 2; 3]%Z.
-Proof. intros []; eexists; eexists; repeat split; vm_compute; reflexivity. Qed.
+Proof. intros []; eexists; eexists; ex_conj. Qed.
 
 Theorem main_exactly_once_at_rest : forall vr es s i b, run vr init es = Some s ->
   nth_error (subs s) i = Some b -> ctx_done b = false -> closed s = false ->
@@ -459,8 +463,11 @@ Example main_exactly_once_at_rest_nonvacuous : forall vr, exists s b,
 Proof.
   intro vr. exists rest_st. eexists.
   split; [destruct vr; vm_compute; reflexivity|].
-  split; [reflexivity|].
-  repeat split; try reflexivity. apply rest_st_stuck.
+  split; [vm_compute; reflexivity|].
+  split; [vm_compute; reflexivity|].
+  split; [vm_compute; reflexivity|].
+  split; [apply rest_st_stuck|].
+  ex_conj.
 Qed.
 
 (* ======================================================================================== *)
@@ -476,7 +483,7 @@ Qed.
 
 Example main_at_most_once_nonvacuous : forall vr, exists s b,
   run vr init rest_sched = Some s /\ nth_error (subs s) 0 = Some b /\ received b = [1; 2]%Z.
-Proof. intros []; eexists; eexists; repeat split; vm_compute; reflexivity. Qed.
+Proof. intros []; eexists; eexists; ex_conj. Qed.
 
 (* ======================================================================================== *)
 (* T1b: the common order respects the real-time order of Broadcast calls *)
@@ -579,7 +586,125 @@ Qed.
 Lemma InvC_step vr s e s' : InvC s -> step vr s e = Some s' -> InvC s'.
 Proof.
   intros [C1 C2] H. destruct e; step_inv H; (split; simp_st); try assumption;
-    try solve [intros [E|E]; discriminate E]; try solve [intro E; discriminate E];
-    try solve [intros Hcl; eapply exited_upd; [apply C2, Hcl | eassumption | simp_st; auto]];
-    try solve [intros Hcl; eapply exited_upd; [apply C2, Hcl | eassumption | simp_st; congruence]].
+    try solve [intros [E|E]; discriminate E]; try solve [intro E; discriminate E].
+  - (* Cancel *)
+    intros Hcl. eapply exited_upd; [apply C2, Hcl | exact Heqo | simp_st; auto].
+  - (* Want *)
+    intros Hcl. eapply exited_upd; [apply C2, Hcl | exact Heqo | simp_st; auto].
+  - (* WantAll *)
+    intros Hcl. eapply exited_upd; [apply C2, Hcl | exact Heqo | simp_st; auto].
+  - (* BcLock, closed *)
+    intros _. assumption.
+  - (* BcLock, open *)
+    intros E. specialize (C1 E). discriminate C1.
+  - (* BcSend *)
+    intros Hcl. eapply exited_upd; [apply C2, Hcl | exact Heqo | simp_st; auto].
+  - (* FwdTake *)
+    intros Hcl. specialize (C2 Hcl _ _ Heqo). congruence.
+  - (* FwdDeliver *)
+    intros Hcl. specialize (C2 Hcl _ _ Heqo). congruence.
+  - (* FwdSeeDone *)
+    intros Hcl. specialize (C2 Hcl _ _ Heqo). congruence.
+  - intros Hcl. specialize (C2 Hcl _ _ Heqo). congruence.
+  - (* FwdExitLocked *)
+    intros Hcl. specialize (C2 Hcl _ _ Heqo). congruence.
+  - (* SubLocked *)
+    intros Hcl k bk Hk. apply nth_error_snoc in Hk as [Hk|(_ & -> & _)]; [eapply C2; eassumption|].
+    rewrite C1 by (right; exact Hcl). reflexivity.
+  - (* CloseLock *)
+    reflexivity.
+  - (* CloseWait *)
+    intros _. apply C1. left. reflexivity.
+  - intros _ k bk Hk. rewrite forallb_forall in Heqb.
+    specialize (Heqb bk (nth_error_In _ _ Hk)). destruct (fwd bk); try discriminate Heqb.
+    reflexivity.
 Qed.
+
+Lemma reach_invC vr es s : run vr init es = Some s -> InvC s.
+Proof. apply (run_inv vr InvC); [apply InvC_step | apply InvC_init]. Qed.
+
+(* what every subscriber has received is unchanged; later subscribers have received nothing *)
+Definition recv_pres (sbs sbs' : list sub) : Prop :=
+  (forall i b', nth_error sbs' i = Some b' ->
+     received b' = match nth_error sbs i with Some b => received b | None => [] end) /\
+  (forall i, nth_error sbs' i = None -> nth_error sbs i = None).
+
+Lemma recv_pres_refl sbs : recv_pres sbs sbs.
+Proof. split; [intros i b' H; rewrite H; reflexivity | auto]. Qed.
+
+Lemma recv_pres_trans a b c : recv_pres a b -> recv_pres b c -> recv_pres a c.
+Proof.
+  intros [A1 A2] [B1 B2]. split.
+  - intros i b' H. rewrite (B1 i b' H). destruct (nth_error b i) as [b1|] eqn:E.
+    + apply A1. exact E.
+    + rewrite (A2 i E). reflexivity.
+  - intros i H. apply A2, B2, H.
+Qed.
+
+Lemma recv_pres_upd sbs i (b b' : sub) :
+  nth_error sbs i = Some b -> received b' = received b -> recv_pres sbs (upd_nth i b' sbs).
+Proof.
+  intros Hi Hr. split; intros k; rewrite nth_error_upd_nth; destruct (i =? k) eqn:E.
+  - apply Nat.eqb_eq in E. subst k. rewrite Hi. intros b0 H. injection H as <-. exact Hr.
+  - intros b0 H. rewrite H. reflexivity.
+  - apply Nat.eqb_eq in E. subst k. rewrite Hi. intro H. discriminate H.
+  - auto.
+Qed.
+
+Lemma recv_pres_snoc sbs (nb : sub) : received nb = [] -> recv_pres sbs (sbs ++ [nb]).
+Proof.
+  intro Hr. split.
+  - intros k b' H. apply nth_error_snoc in H as [H|(_ & -> & H)]; rewrite H; [reflexivity | exact Hr].
+  - intros k H. apply nth_error_None in H. apply nth_error_None.
+    rewrite app_length in H. cbn [length] in H. lia.
+Qed.
+
+Lemma after_close_step vr s e s' :
+  InvC s -> cl s = CReturned -> step vr s e = Some s' ->
+  cl s' = CReturned /\ recv_pres (subs s) (subs s').
+Proof.
+  intros [C1 C2] Hcl H. destruct e; step_inv H; simp_st; try discriminate Hcl;
+    (split; [assumption|]); try apply recv_pres_refl.
+  - apply (recv_pres_upd _ _ _ _ Heqo); reflexivity.
+  - apply (recv_pres_upd _ _ _ _ Heqo); reflexivity.
+  - apply (recv_pres_upd _ _ _ _ Heqo); reflexivity.
+  - apply (recv_pres_upd _ _ _ _ Heqo); reflexivity.
+  - apply (recv_pres_upd _ _ _ _ Heqo); reflexivity.
+  - (* FwdDeliver: the forwarder has exited *)
+    specialize (C2 Hcl _ _ Heqo). congruence.
+  - apply (recv_pres_upd _ _ _ _ Heqo); reflexivity.
+  - apply (recv_pres_upd _ _ _ _ Heqo); reflexivity.
+  - apply (recv_pres_upd _ _ _ _ Heqo); reflexivity.
+  - apply recv_pres_snoc. destruct (closed s); reflexivity.
+Qed.
+
+Lemma after_close_run vr es' : forall s s',
+  InvC s -> cl s = CReturned -> run vr s es' = Some s' -> recv_pres (subs s) (subs s').
+Proof.
+  induction es' as [|e es' IH]; intros s s' HC Hcl H; cbn [run] in H.
+  - injection H as <-. apply recv_pres_refl.
+  - destruct (step vr s e) as [s1|] eqn:E; [|discriminate H].
+    destruct (after_close_step _ _ _ _ HC Hcl E) as [Hcl1 Hp].
+    eapply recv_pres_trans; [exact Hp|].
+    apply IH; [eapply InvC_step; eassumption | exact Hcl1 | exact H].
+Qed.
+
+Theorem main_no_delivery_after_close : forall vr es s es' s', run vr init es = Some s ->
+  cl s = CReturned -> run vr s es' = Some s' ->
+  forall i b', nth_error (subs s') i = Some b' ->
+    received b' = match nth_error (subs s) i with Some b => received b | None => [] end.
+Proof.
+  intros vr es s es' s' Hr Hcl Hr' i b' Hb.
+  apply (after_close_run vr es' s s' (reach_invC _ _ _ Hr) Hcl Hr'). exact Hb.
+Qed.
+
+(* non-vacuity: one delivery, Close returns, then a Broadcast and a Subscribe that are no-ops *)
+Example main_no_delivery_after_close_nonvacuous : forall vr, exists s s' b0 b1,
+  run vr init [SubCall 0 true; SubLocked 0; BcCall 1%Z; BcLock 0; BcSend; BcEnd; FwdTake 0;
+               FwdDeliver 0; CloseCall; CloseLock; FwdSeeDone 0; FwdExitLocked 0; CloseWait]
+    = Some s /\
+  cl s = CReturned /\
+  run vr s [BcCall 2%Z; BcLock 0; SubCall 1 true; SubLocked 0] = Some s' /\
+  nth_error (subs s') 0 = Some b0 /\ received b0 = [1%Z] /\
+  nth_error (subs s') 1 = Some b1 /\ received b1 = [] /\ bret s' = [1; 2]%Z.
+Proof. intros []; eexists; eexists; eexists; eexists; ex_conj. Qed.
